@@ -415,6 +415,17 @@ NominalSize == 7
 Content(kd, n) == IF kd = "menu" THEN MenuC(n) ELSE Blob(NominalSize)
 Repeat(x, n) == [i \in 1..n |-> x]
 
+\* gemini.py write_status: the <META> of an error is cut to 1024 BYTES of its encoding, never inside a character
+\* (stand-ins "*", "^", "`" are two-byte characters, see c03_lib.STANDINS; everything else in the alphabet is one byte)
+TwoByte == {"*", "^", "`"}
+ByteLen(s) == Len(s) + Cardinality({i \in 1..Len(s) : T!Ch(s, i) \in TwoByte})
+CutBytes(s, n) ==
+    IF ByteLen(s) <= n THEN s
+    ELSE LET k == CHOOSE j \in 0..Len(s) : /\ ByteLen(SubSeq(s, 1, j)) <= n
+                                           /\ (j = Len(s) \/ ByteLen(SubSeq(s, 1, j + 1)) > n)
+         IN SubSeq(s, 1, k)
+MetaMax == 1024
+
 \* the error reply of each protocol (filenotfound / write_status), from the message text
 ErrorChunks(fam, method, msg, io) ==
     CASE fam = "G"  -> <<Txt("3" \o msg \o "\t\terror.host\t1" \o CRLF)>>
@@ -423,7 +434,7 @@ ErrorChunks(fam, method, msg, io) ==
                        \o (IF method = "HEAD" /\ "HeadErrorBody" \notin Defects THEN <<>> ELSE Repeat(Blob(1), 4))
       [] fam = "W"  -> <<Txt("HTTP/1.0 200 Not Found" \o CRLF), Txt("Content-Type: text/vnd.wap.wml" \o CRLF \o CRLF)>>
                        \o (IF method = "HEAD" /\ "HeadErrorBody" \notin Defects THEN <<>> ELSE Repeat(Blob(1), 5))
-      [] fam = "GEM" -> <<Txt("51 " \o msg \o CRLF)>>
+      [] fam = "GEM" -> <<Txt("51 " \o CutBytes(msg, MetaMax) \o CRLF)>>
       [] fam = "S"   -> <<Txt((IF io THEN "5 " ELSE "4 ") \o msg \o CRLF)>>
       [] OTHER -> <<>>
 \* repaired steps replace CR/LF (and TAB) in the message by spaces before writing it
@@ -551,7 +562,9 @@ Parse ==                                        \* protocol.handle() up to its t
                        /\ pc' = "write" /\ exc' = exc
                /\ UNCHANGED sel
          [] r.special \in {"input10", "input30"} ->
+               \* a redirect target over the <META> limit: the request was over the protocol's limit itself (59)
                /\ todo' = Wrs("outside", <<Txt(IF r.special = "input10" THEN "10 Enter input" \o CRLF
+                                                ELSE IF ByteLen(r.aux) > MetaMax THEN "59 Bad request" \o CRLF
                                                 ELSE "30 " \o r.aux \o CRLF)>>)
                /\ kind' = "status" /\ pc' = "write" /\ UNCHANGED <<sel, exc, site>>
          [] r.special = "icon" ->
